@@ -45,35 +45,60 @@ func vxSigCalls(log []vxFSCall) []vxFSCall {
 		default:
 			out = append(out, c)
 		}
+		// (same list as vxIsQuery)
 	}
 	return out
 }
 
-// vxFailed returns the calls that returned an error.
+// vxFailed returns the calls that returned an error (closing a handle is not an operation on the tree: a failing
+// close while a fid is being destroyed obliges nobody to answer Rerror).
 func vxFailed(log []vxFSCall) []vxFSCall {
 	var out []vxFSCall
 	for _, c := range log {
-		if c.err != nil {
+		if c.err != nil && c.op != "close" {
 			out = append(out, c)
 		}
 	}
 	return out
 }
 
-// vxCheckErrno: the reply to a request during which exactly one model call failed.
+func vxIsQuery(op string) bool {
+	switch op {
+	case "lstat", "stat", "readlink", "lookup", "lookupid":
+		return true
+	}
+	return false
+}
+
+// vxCheckErrno: the reply to a request during which model calls failed. A failed operation (not a mere query)
+// must be answered with Rerror; an Rerror in 9P2000.u must carry the errno of (one of) the failed call(s).
 func vxCheckErrno(rc *Fcall, failed []vxFSCall, dotu bool) {
-	if len(failed) != 1 {
+	if len(failed) == 0 {
 		return
 	}
 	vxObserve("failop", failed[0].op)
 	vxObserve("injected", failed[0].fault)
-	vxAssert(rc.Type == Rerror, "failed-operation-answered-with-Rerror")
+	mustErr := false
+	for _, c := range failed {
+		if !vxIsQuery(c.op) {
+			mustErr = true
+		}
+	}
+	if mustErr {
+		vxAssert(rc.Type == Rerror, "failed-operation-answered-with-Rerror")
+	}
 	if rc.Type != Rerror || !dotu {
 		return
 	}
-	if e, ok := vxErrnoOf(failed[0].err); ok {
-		vxAssert(rc.Errornum == uint32(e), "Rerror-carries-the-errno-of-the-failed-operation")
+	match := false
+	for _, c := range failed {
+		e, ok := vxErrnoOf(c.err)
+		if !ok {
+			return // a failure without an error number (unknown user name)
+		}
+		match = vxAny(match, rc.Errornum == uint32(e))
 	}
+	vxAssert(match, "Rerror-carries-the-errno-of-the-failed-operation")
 }
 
 func vxC17Kit(dotu bool, faults int) *vxUfsKit {
@@ -82,6 +107,8 @@ func vxC17Kit(dotu bool, faults int) *vxUfsKit {
 	k.fs.quietStat = true
 	return k
 }
+
+var vxCreateClass = []string{"file", "dir", "symlink", "link", "any"}
 
 const vxTypeBits = DMDIR | DMSYMLINK | DMLINK | DMNAMEDPIPE | DMDEVICE | DMSOCKET
 
@@ -143,7 +170,7 @@ func vxH17Create(dotu bool, class int, faults int, namelen int) {
 	defer vxCheckErrno(rc, failed, dotu) // last, so that a wrong errno does not hide the other checks of this path
 	if rc.Type == Rerror {
 		vxObserve("mutations-before-error", fs.mutationsDone())
-		vxAssert(vxSameTree(before, after), "Rerror-implies-tree-unchanged")
+		vxAssert(vxSameTree(before, after), "create-"+vxCreateClass[class]+"-Rerror-implies-tree-unchanged")
 		vxAssert(uf.path == vxRoot+"/d", "Rerror-implies-fid-path-unchanged")
 		vxAssert(uf.file == nil, "Rerror-implies-fid-not-opened")
 		vxAssert(!f.opened, "Rerror-implies-fid-not-marked-open")
@@ -169,7 +196,6 @@ func vxH17Create(dotu bool, class int, faults int, namelen int) {
 				vxAssert(ro.errno == 0 && h.in == ro.in, "handle-is-on-created-object")
 			}
 		}
-		vxAssert(len(failed) == 0, "success-although-an-operation-failed")
 		vxReach("rcreate")
 	}
 
@@ -228,9 +254,11 @@ func vxH17Create(dotu bool, class int, faults int, namelen int) {
 			vxAssert(g.err == nil, "continued-after-a-failed-operation")
 		}
 	}
-	if len(sig) < len(want) {
-		// stopped early: only allowed because something failed (the last call made, or a query before any call)
-		vxAssert(len(failed) > 0, "operations-missing")
+	if rc.Type == Rcreate {
+		vxAssert(len(sig) == len(want), "operations-missing")
+		if len(sig) > 0 {
+			vxAssert(sig[len(sig)-1].err == nil, "success-although-an-operation-failed")
+		}
 	}
 	vxReach("conformance")
 }
@@ -257,12 +285,11 @@ func vxH17Write(dotu bool, faults int, N int) {
 	failed := vxFailed(fs.log)
 	defer vxCheckErrno(rc, failed, dotu) // last, so that a wrong errno does not hide the other checks of this path
 	if rc.Type == Rerror {
-		vxAssert(len(failed) > 0, "Rerror-although-nothing-failed")
 		vxAssert(vxSameTree(before, fs.snapshot()), "failed-write-changes-nothing")
 		vxReach("rerror")
 	} else {
 		vxAssert(rc.Type == Rwrite, "reply-type")
-		vxAssert(len(failed) == 0, "success-although-an-operation-failed")
+		vxAssert(len(sig) == 1, "operations-missing")
 		vxAssert(rc.Count == uint32(N), "Rwrite-count")
 		vxReach("rwrite")
 	}
@@ -275,8 +302,9 @@ func vxH17Write(dotu bool, faults int, N int) {
 		if len(c.data) == N {
 			vxAssert(refBytesEq(c.data, sent), "WriteAt-data")
 		}
-	} else {
-		vxAssert(len(failed) > 0, "operations-missing")
+		if rc.Type == Rwrite {
+			vxAssert(c.err == nil, "success-although-an-operation-failed")
+		}
 	}
 	_ = in
 }
@@ -317,12 +345,12 @@ func vxH17Remove(dotu bool, faults int) {
 		}
 	}
 	if rc.Type == Rerror {
-		vxAssert(len(failed) > 0, "Rerror-although-nothing-failed")
-		vxAssert(vxSameTree(before, after), "Rerror-implies-tree-unchanged")
+		vxAssert(vxSameTree(before, after), "remove-Rerror-implies-tree-unchanged")
 		vxAssert(uf.path == p, "Rerror-implies-fid-path-unchanged")
 		vxReach("rerror")
 	} else {
 		vxAssert(rc.Type == Rremove, "reply-type")
+		vxAssert(len(ops) == 1, "operations-missing")
 		r := fs.resolve(p, false)
 		vxAssert(r.errno == vxENOENT, "removed-object-is-gone")
 		vxAssert(len(after) == len(before)-1, "exactly-one-name-removed")
@@ -332,8 +360,9 @@ func vxH17Remove(dotu bool, faults int) {
 	if len(ops) == 1 {
 		vxAssert(ops[0].op == "remove", "operation-kind")
 		vxAssert(vxSamePath(ops[0].path, p), "operation-path")
-	} else {
-		vxAssert(len(failed) > 0, "operations-missing")
+		if rc.Type == Rremove {
+			vxAssert(ops[0].err == nil, "success-although-an-operation-failed")
+		}
 	}
 	if which == 2 {
 		vxAssert(rc.Type == Rerror, "non-empty-directory-not-removed")
@@ -387,14 +416,12 @@ func vxH17Wstat(dotu bool, faults int) {
 	failed := vxFailed(fs.log)
 	defer vxCheckErrno(rc, failed, dotu) // last, so that a wrong errno does not hide the other checks of this path
 	if rc.Type == Rerror {
-		vxAssert(len(failed) > 0, "Rerror-although-nothing-failed")
 		vxReach("rerror") // the tree after a wstat that fails half-way: the statement is silent
 		return
 	}
 	vxAssert(rc.Type == Rwstat, "reply-type")
-	vxAssert(len(failed) == 0, "success-although-an-operation-failed")
-	if len(failed) != 0 {
-		return
+	for _, c := range sig {
+		vxAssert(c.err == nil, "success-although-an-operation-failed")
 	}
 	// every requested change was made exactly once, on the object, with the requested value; nothing else
 	renameAt := -1
